@@ -40,10 +40,30 @@ def auth_of(op):
 
 
 class World:
-    def __init__(self, pkce_required=False, supported=None, strict_hint=False, oidc=False, framework=None):
+    def __init__(self, pkce_required=False, supported=None, strict_hint=False, oidc=False, framework=None, jwt_first=False):
         CLOCK.now = 1_000_000
         self.store, self.srv, self.rp = ms.build(oidc=oidc, pkce_required=pkce_required, scopes_supported=supported, framework=framework)
         self.framework = framework
+        if jwt_first:
+            # a deployment that also issues RFC 9068 JWT access tokens: the JWT revocation / introspection endpoints are registered in front of
+            # the ordinary ones, which opaque tokens must still reach (ContinueIteration)
+            from authlib.jose import KeySet, OctKey
+            from authlib.oauth2.rfc9068 import JWTIntrospectionEndpoint, JWTRevocationEndpoint
+            jwks = KeySet([OctKey.import_key(b"k" * 32, {"kid": "k1"})])
+            auth_methods = ["client_secret_basic", "client_secret_post"]
+
+            class JRev(JWTRevocationEndpoint):
+                CLIENT_AUTH_METHODS = auth_methods
+                def get_jwks(self): return jwks
+
+            class JInt(JWTIntrospectionEndpoint):
+                CLIENT_AUTH_METHODS = auth_methods
+                def get_jwks(self): return jwks
+                def get_username(self, user_id): return None
+                def check_permission(self, token, client, request): return token["client_id"] == client.get_client_id()
+            for name, ep in (("revocation", JRev(issuer="https://as.example", server=self.srv)), ("introspection", JInt(issuer="https://as.example", server=self.srv))):
+                self.srv._endpoints[name].insert(0, ep)
+            self._jwt_first = True
         # a resource server that is not co-located with the provider: rfc7662.IntrospectTokenValidator asking the provider's introspection endpoint
         from authlib.oauth2.rfc7662 import IntrospectTokenValidator
         from authlib.oauth2 import ResourceProtector as _RP
@@ -64,6 +84,8 @@ class World:
         self.cfg = {"clients": CFG_CLIENTS, "now": 1_000_000, "pkce_required": pkce_required, "supported": supported, "strict_hint": strict_hint}
         if oidc:
             self.cfg["oidc"] = True
+        if getattr(self, "_jwt_first", False):
+            self.cfg["jwt_first"] = True
 
     def num(self, s, prefix):
         m = re.fullmatch(prefix + r"(\d+)", s or "")
@@ -321,7 +343,7 @@ def oracle_all(oracle):
 def replay(case, framework=None):
     """run a recorded history on the real code again (used for replays and seeded-mutant checks)"""
     cfg = case["cfg"]
-    w = World(cfg.get("pkce_required", False), cfg.get("supported"), cfg.get("strict_hint", False), framework=framework)
+    w = World(cfg.get("pkce_required", False), cfg.get("supported"), cfg.get("strict_hint", False), framework=framework, jwt_first=cfg.get("jwt_first", False))
     outs = []
     for op in case["ops"]:
         o = w.step(op)
